@@ -16,6 +16,7 @@ RULE = ("case = CFG description as in C08 plus explicitly seeded unit production
 ASSUMPTIONS = ["reference bounded languages by least fixpoint (vlib/ref_cfg.py), bound 5",
                "the start symbol may stay declared in an empty-language result (it has to exist)"]
 BUDGET = {"quick": 800, "thorough": 6000}
+FUZZ = {"procs": 4, "runs": 6000}      # atheris supplement of the thorough tier (vlib/fuzz.py)
 WATCHDOG = 30
 N = 5
 
